@@ -372,12 +372,17 @@ def run(chk):
                 o = lib.run_impl("deps", [l], jobs=1, timeout=120)[0]
                 chk.count("cycle:model:" + m.split()[0])
                 chk.count("cycle:impl:" + ("abort" if o.startswith("abort") else o.split()[0]))
-                if not (m.startswith("deps=fuel") and o.startswith("abort")):
+                # the model mirrors the traversal WITHOUT a cycle guard (it runs out of fuel on a cycle, theorem
+                # deps self-include); the code has had a guard since fix dbb47f4 ("<file> includes itself"): on a
+                # cyclic graph it must now report an error for the listing and for the compilation, and never abort
+                if o.startswith("abort") or o.split()[0] in ("timeout", "panic", "missing"):
+                    chk.fail("oracle", "deps:include-cycle-crash", {"sub": "deps", "line": l}, {"model": m, "impl": o[:200]})
+                elif not (m.startswith("deps=fuel") and o.startswith("deps=err") and "reads=err" in o):
                     chk.fail("correspondence", "corr:deps-cycle", {"sub": "deps", "line": l}, {"model": m, "impl": o[:200]})
                 else:
                     chk.cov["traces_validated_against_impl"] = chk.cov.get("traces_validated_against_impl", 0) + 1
-        chk.sample({"line": enc_case(*CYCLES[0]("c23")), "model": "deps=fuel", "impl": "abort (stack overflow)",
-                    "meaning": "an include cycle: the traversal does not terminate"})
+        chk.sample({"line": enc_case(*CYCLES[0]("c23")), "model": "deps=fuel", "impl": "deps=err reads=err (includes itself)",
+                    "meaning": "an include cycle: the unguarded traversal of the model does not terminate; the code rejects it"})
     chk.cov["modelled_not_verified"] = [
         "forms are abstracted to include / embed-file / helper-with-nested-mod / other; macro expansion that produces include forms "
         "(strict dialects expand defmac before looking for includes) is not modelled",
